@@ -62,7 +62,7 @@ def _batch(space, tier):
 
 SPEC = dict(
     level="exploration",
-    rule="(1) particles: every particle tree of the families P1 g{o}(l{o}), P1n g{o}(g{o}(l{o})), P2 g{o}(l{o} l{o}), P2n (three nested two-leaf shapes), "
+    rule="(attrs also: wide complex types with N attribute uses, N in {10, 63..67, 70, 129..131} - around the 64-slot rows of the scanners' attribute-presence bookkeeping - with a required and a defaulted use last; the first item gives all N attributes, later items of the same type subsets.) (1) particles: every particle tree of the families P1 g{o}(l{o}), P1n g{o}(g{o}(l{o})), P2 g{o}(l{o} l{o}), P2n (three nested two-leaf shapes), "
          "P3 (three-leaf shapes, thorough), PA all-groups with 1-3 members, PL occurrence ladder (max 5/12), over leaves {element a,b,c; wildcards "
          "##any/##other/##targetNamespace x strict/lax/skip}, compositor {sequence, choice, all(top)}, occurrence pairs from "
          "{(0,1),(1,1),(0,inf),(1,inf),(2,2),(2,3),(0,2),(3,inf)} (per-family subsets listed in docs/c08.md) is one schema = one case. "
